@@ -230,9 +230,15 @@ impl Monitor for M {
                     if ctx.rng.chance(1, 8) {
                         lens.push(ctx.rng.range(60_000, 72_000) as usize);
                     }
+                    // megabytes of regular junk (one byte repeated, near-miss patterns, long runs): linear code skips
+                    // them in milliseconds, anything super-linear in the junk length runs into the progress watchdog
+                    if ctx.rng.chance(1, 40) {
+                        lens.push(ctx.rng.range(1 << 20, 3 << 20) as usize);
+                        ctx.obs("parse.megabytes_of_regular_junk");
+                    }
                 }
                 for jl in lens {
-                    let mut j = gen_junk(&mut ctx.rng, jl);
+                    let mut j = if jl >= 1 << 20 { crate::mutate::gen_regular_junk(&mut ctx.rng, jl) } else { gen_junk(&mut ctx.rng, jl) };
                     // junk ending in D, DL, DLT
                     let tail_k = ctx.rng.below(4) as usize;
                     if jl >= tail_k {
